@@ -1,13 +1,16 @@
 package checks
 
 import (
+	"bytes"
 	"encoding/json"
 	"fmt"
 	"sort"
 	"strings"
 
 	"github.com/tobgu/qframe"
+	"github.com/tobgu/qframe/config/groupby"
 	"github.com/tobgu/qframe/config/newqf"
+	"github.com/tobgu/qframe/types"
 
 	"verif/harness/core"
 	"verif/harness/model"
@@ -303,6 +306,77 @@ type projCase struct {
 	// Pre: a projection applied first (select/drop with PreCols); Op then runs on its result
 	Pre     string   `json:"pre,omitempty"`
 	PreCols []string `json:"pre_cols,omitempty"`
+	// Base: "" = the three-column frame a,b,c; "glob" = column names holding * ? [ ] \ next to names they would match
+	// as patterns; otherwise a frame derived from a,b,c (see c08DerivedBases)
+	Base string `json:"base,omitempty"`
+}
+
+// frames "however derived": the projection operations run on the results of these
+var c08DerivedBases = []string{"aggregated", "evaluated", "applied", "rownums", "distinct-sorted", "filtered", "csv", "json"}
+
+func c08GlobBase() model.Frame {
+	f := model.Frame{N: 3}
+	for i, n := range []string{"x[0]", "x0", "n*", "n1", `n\*`} {
+		f.Cols = append(f.Cols, model.Col{Name: n, Kind: model.Int, Cells: []model.Cell{model.I(10 * i), model.I(10*i + 1), model.I(10*i + 2)}})
+	}
+	return f
+}
+
+type c08Derived struct {
+	qf qframe.QFrame
+	in model.Frame
+}
+
+var c08derived = map[string]c08Derived{}
+
+// c08ProjFrame: the input frame of a projection case (built once per worker process) and its observation.
+func c08ProjFrame(base string, shape int) (qframe.QFrame, model.Frame) {
+	if base == "" {
+		c08ProjEnv()
+		return c08proj.real[shape], c08proj.obs[shape]
+	}
+	key := fmt.Sprintf("%s/%d", base, shape)
+	if d, ok := c08derived[key]; ok {
+		return d.qf, d.in
+	}
+	var qf qframe.QFrame
+	var in model.Frame
+	if base == "glob" {
+		g := c08GlobBase()
+		qf = model.BuildShape(g, shape)
+		in = model.ObserveAs(qf, g)
+	} else {
+		q := model.BuildShape(c08ProjBase(), shape)
+		switch base {
+		case "aggregated":
+			qf = q.GroupBy(groupby.Columns("c")).Aggregate(qframe.Aggregation{Fn: "sum", Column: "a"}, qframe.Aggregation{Fn: "count", Column: "b", As: "n"})
+		case "evaluated":
+			qf = q.Eval("d", qframe.Expr("+", types.ColumnName("a"), types.ColumnName("a")))
+		case "applied":
+			qf = q.Apply(qframe.Instruction{Fn: 2.5, DstCol: "d"}, qframe.Instruction{Fn: func(x int) int { return x + 1 }, DstCol: "a", SrcCol1: "a"})
+		case "rownums":
+			qf = q.WithRowNums("d")
+		case "distinct-sorted":
+			qf = q.Distinct().Sort(qframe.Order{Column: "a", Reverse: true})
+		case "filtered":
+			qf = q.Filter(qframe.Filter{Column: "a", Comparator: ">", Arg: 1})
+		case "csv":
+			var b bytes.Buffer
+			if err := q.ToCSV(&b); err != nil {
+				return q, model.Frame{Err: true, ErrText: err.Error()}
+			}
+			qf = qframe.ReadCSV(&b)
+		case "json":
+			var b bytes.Buffer
+			if err := q.ToJSON(&b); err != nil {
+				return q, model.Frame{Err: true, ErrText: err.Error()}
+			}
+			qf = qframe.ReadJSON(&b)
+		}
+		in = model.Observe(qf)
+	}
+	c08derived[key] = c08Derived{qf, in}
+	return qf, in
 }
 
 func c08ProjBase() model.Frame {
@@ -333,10 +407,9 @@ func c08ProjEnv() {
 }
 
 func runProjCase(c projCase) *core.Failure {
-	c08ProjEnv()
-	qf, in := c08proj.real[c.Shape], c08proj.obs[c.Shape]
+	qf, in := c08ProjFrame(c.Base, c.Shape)
 	if in.Err {
-		return core.Failf("input frame could not be built")
+		return core.Failf("input frame (%s) could not be built: %s", c.Base, in.ErrText)
 	}
 	if c.Pre != "" {
 		// the first step is checked on its own by the single-step cases; here its observed result is the input
@@ -729,6 +802,45 @@ func c08Run(ctx *core.Ctx) {
 				if ctx.Mine() {
 					execProj(projCase{Shape: shape, Op: "select", Cols: sel, Pre: pre.Pre, PreCols: pre.PreCols})
 				}
+			}
+		}
+		// the same on frames with pattern-like column names and on derived frames: every duplicate-free Select
+		// sequence, every Drop subset, every Copy pair, one Slice
+		for _, base := range append([]string{"glob"}, c08DerivedBases...) {
+			_, bin := c08ProjFrame(base, shape)
+			names := append(bin.Names(), "q?")
+			var rec3 func(cur []string, used int)
+			rec3 = func(cur []string, used int) {
+				if ctx.Mine() {
+					execProj(projCase{Base: base, Shape: shape, Op: "select", Cols: append([]string{}, cur...)})
+				}
+				for i, u := range names {
+					if used&(1<<i) == 0 {
+						rec3(append(cur, u), used|1<<i)
+					}
+				}
+			}
+			rec3(nil, 0)
+			for mask := 0; mask < 1<<len(names); mask++ {
+				var cols []string
+				for i, u := range names {
+					if mask&(1<<i) != 0 {
+						cols = append(cols, u)
+					}
+				}
+				if ctx.Mine() {
+					execProj(projCase{Base: base, Shape: shape, Op: "drop", Cols: cols})
+				}
+			}
+			for _, dst := range append(append([]string{}, names...), "new") {
+				for _, src := range names {
+					if ctx.Mine() {
+						execProj(projCase{Base: base, Shape: shape, Op: "copy", Cols: []string{dst, src}})
+					}
+				}
+			}
+			if ctx.Mine() {
+				execProj(projCase{Base: base, Shape: shape, Op: "slice", A: 1, B: bin.N})
 			}
 		}
 		// Copy
